@@ -457,6 +457,7 @@ type Contract struct {
 	Applies  string   // extern that calls its function-valued parameter once: the closure's contract is applied at the call site
 	With     []Clause // facts about the arguments (arg0, arg1, ...) the extern passes to the applied closure
 	Focus    map[string][]string // "focus <label> : <invariant labels>": the loop invariants an obligation with that label needs
+	MustCall []MustCallSpec // "mustcall <callee key> on <receiver expr> once": a static callee is called exactly once on every return path
 	Calls    *CallsSpec // "calls f(a, b, c) once": the function value f (a parameter or captured variable) is called exactly once on every return path, with these arguments
 	Parfor   string   // parallel-for: this parameter is a worker closure run once per extent (see applyParfor)
 	Worker   []string // worker closure: [index variable, offset parameter, entries parameter]
@@ -468,6 +469,12 @@ type Contract struct {
 	SiteHints map[string][]Clause // proved (then assumed) right after the named call site ("callee@n")
 	Flags    map[string]bool // pure, inline, trusted, allocates...
 	Src      string
+}
+
+type MustCallSpec struct {
+	Key  string
+	Recv *Clause // optional: the receiver (first argument) of the call
+	Src  string
 }
 
 type CallsSpec struct {
@@ -667,6 +674,23 @@ func (db *SpecDB) ParseSpecTextIn(lines []string, srcs []string, pkg string) err
 				cur.Focus = map[string][]string{}
 			}
 			cur.Focus[strings.TrimSpace(parts[0])] = strings.Fields(parts[1])
+		case "mustcall":
+			// mustcall <callee key> [on <receiver expr>] once
+			if cur == nil {
+				return fmt.Errorf("%s: mustcall outside a contract", l.src)
+			}
+			t := strings.TrimSpace(strings.TrimSuffix(strings.TrimSpace(rest), "once"))
+			ms := MustCallSpec{Src: l.src}
+			if i := strings.Index(t, " on "); i > 0 {
+				c, err := mk(t[i+4:], l.src, "recv")
+				if err != nil {
+					return err
+				}
+				ms.Recv = &c
+				t = strings.TrimSpace(t[:i])
+			}
+			ms.Key = t
+			cur.MustCall = append(cur.MustCall, ms)
 		case "calls":
 			// calls f(a, b, c) once
 			if cur == nil {
